@@ -21,7 +21,7 @@ theorem K_inSessionFixMsgIn {c : Ctx} (hc : CtxOK c) {s : Sess} (hk : K c s) {im
     generalize handleLogon s (toIn c.pcfg m) = r at h
     obtain ⟨s', o⟩ := r
     cases o with
-    | some e => exact (sext_initiateLogout s').K h
+    | some e => exact (sext_sendInReplyTo s' ((mkOut "5" []).inReplyTo (toIn c.pcfg m)) (outOK_logout.re _)).K h
     | none => exact h
   · split
     · rename_i hk5
@@ -89,10 +89,10 @@ theorem K_resendFixMsgIn {c : Ctx} (hc : CtxOK c) {s : Sess} (hk : K c s) (stash
     | exact K_sRR_eq (by assumption) h1
     | exact K_drain_eq hc (by assumption) h1 (by split <;> first | exact h2 | exact hst)
 
-theorem K_shutdown_false {c : Ctx} {s : Sess} (hk : K c s) : K c (shutdownWithReason s false).1 := by
+theorem K_shutdown_false {c : Ctx} {s : Sess} (im : InMsg) (hk : K c s) : K c (shutdownWithReason s im false).1 := by
   unfold shutdownWithReason
   simp only [Bool.false_eq_true, if_false]
-  exact (sext_dropAndSend s _ outOK_logout).K hk
+  exact (sext_dropAndSend s _ (outOK_logout.re im)).K hk
 
 theorem K_logonFixMsgIn {c : Ctx} (hc : CtxOK c) {s : Sess} (hk : K c s) {im : InMsg} (hp : PoolP c im) :
     K c (logonFixMsgIn s im).1 := by
@@ -111,7 +111,7 @@ theorem K_logonFixMsgIn {c : Ctx} (hc : CtxOK c) {s : Sess} (hk : K c s) {im : I
     · rename_i heq; cases heq; exact h1
     · rename_i heq; cases heq
       rcases h2 _ rfl with ⟨a, b, hr⟩ | ⟨a, b, hr⟩ <;> cases hr
-    · rename_i heq; cases heq; exact K_shutdown_false h1
+    · rename_i heq; cases heq; exact K_shutdown_false _ h1
     · rename_i heq; cases heq
       exact (sext_sendResendRequest _ _ _).K h1
     · rename_i heq; cases heq; exact h1
@@ -315,5 +315,6 @@ theorem K_stepCore {c : Ctx} (hc : CtxOK c) (s : Sess) (e : Ev) (he : LinkEv c e
     · exact (sext_sendQueued _).K k1
     · exact (xpeel_setToSend_nil (SExt.refl _)).K k1
   | sessionTime r sm => exact he.elim
+  | resetTime now => exact he.elim
 
 end Qfx.Link
